@@ -7,6 +7,12 @@ THEOREMS = {
         "Dawgs.C18.Props.manifest_describes_files",
         "Dawgs.C18.Props.load_iso",
         "Dawgs.C18.Props.verify_iff_match",
+        "Dawgs.C18.Props.verify_iff_metrics_equal",
+        "Dawgs.C18.Props.dump_all_graphs",
+        "Dawgs.C18.Props.load_all_graphs",
+        "Dawgs.C18.Props.int_round_trip_current",
+        "Dawgs.C18.Props.int_round_trip_current_lossy",
+        "Dawgs.C18.Props.int_round_trip_fixed",
         "Dawgs.C18.Props.verify_accepts_loaded",
         "Dawgs.C18.Props.verify_gap",
         "Dawgs.C18.Props.c18_partial",
@@ -81,7 +87,7 @@ SPEC = {
     "level": "proof",
     "lean_modules": ["Dawgs.Props.C18"],
     "theorems_by_module": THEOREMS,
-    "gate_modules": ["Dawgs.Model.C18", "Dawgs.Spec.C18", "Dawgs.Proofs.C18", "Dawgs.Proofs.C18Metrics", "Dawgs.Props.C18"],
+    "gate_modules": ["Dawgs.Model.C18", "Dawgs.Spec.C18", "Dawgs.Proofs.C18", "Dawgs.Proofs.C18Metrics", "Dawgs.Proofs.C18Multi", "Dawgs.Model.C18Num", "Dawgs.Props.C18"],
     "suites": [
         {"name": "c18", "model_suite": "c18", "monitor_suite": None, "keep_prefix": 2, "thorough_seeds": 2},
         {"name": "obs18", "model_suite": None, "monitor_suite": "c18mon", "keep_prefix": 2, "thorough_seeds": 2, "shrink_budget": 150},
@@ -103,8 +109,8 @@ SPEC = {
                      "round trip of property values is checked by the tie on every run)",
                      "harness/fakedb.go: in-memory graph.Database fake interpreting the keyset criteria the retriever emits (real drivers not exercised)"],
     "assumptions": ["scrub off; source database unchanged during the dump",
-                    "property values are JSON values; integers beyond 2^53 are kept out of the model tie (suite c18) and exercised in suite obs18, "
-                    "where the loss of precision is the known finding C18:Load.decodeFragment:int-beyond-2^53",
+                    "property values are JSON values; int64 values beyond 2^53 are part of both suites since the UseNumber fix "
+                    "(finding C18:Load.decodeFragment:int-beyond-2^53 fixed; live theorem int_round_trip_fixed)",
                     "Verify is judged against the histograms it compares, not against isomorphism (documented gap, see coverage.gap_note)"],
     "explanation": "C18_full (verification succeeds exactly when the graphs match) is refuted in Lean by a witness pair and confirmed on the real "
                    "code; everything else of the property is proved on the protocol model (c18_partial) and tied to the code by differential runs.",
@@ -114,14 +120,17 @@ MANIFEST = {
     "category": "proof",
     "technique": "Lean 4 proofs on an executable model of the dump/load/verify protocol (keyset scan, shard rollover, manifest, id-map re-pointing, "
                  "metrics histograms) + differential correspondence and observation monitor against the real retriever over an in-memory graph.Database",
-    "text": "Lean theorems for all well-formed graphs, all batch/shard sizes >= 1, any codec with dec(enc x)=x and any injective destination id "
-            "allocator: the keyset scan yields every entity exactly once in id order (short-read and truncation cases explicit), shards partition the "
+    "text": "Lean theorems for all databases of several well-formed graphs with distinct names (dump_all_graphs / load_all_graphs: every target graph "
+            "exactly once in the manifest's order, one id map per graph, nothing leaking between graphs), all batch/shard sizes >= 1, any codec with "
+            "dec(enc x)=x and any injective destination id allocator: the keyset scan yields every entity exactly once in id order (short-read and truncation cases explicit), shards partition the "
             "scan (non-empty, <= ShardSize, all but the last full, k*ShardSize gives exactly k files, empty phase gives none), the manifest describes "
             "exactly the files written, load(dump g) is isomorphic to g under the loader's id map (kinds, properties, endpoints, parallel edges as a "
-            "multiset), Verify accepts the loaded graph and, for any database, succeeds iff the compared histograms agree. The model answers are compared line by line with the real "
+            "multiset). Verify clause in one sentence: Verify accepts the loaded graphs and, for any database, succeeds exactly when its metrics equal the "
+            "manifest's (counts and the six histograms as multisets, verify_iff_metrics_equal), which isomorphism implies but which does NOT imply "
+            "isomorphism - 'exactly when the graphs match' is the refuted part of C18_full (verify_gap, c18_full_refuted). The model answers are compared line by line with the real "
             "Dump->Load->Verify on generated databases x codecs x boundary sizes every run; a Lean monitor judges raw observations (recomputed "
             "sha256/byte counts/record counts, directory listing, loaded graph).",
     "note": "Partial clause: 'verification succeeds exactly when the graphs match' is false for the code (metrics fingerprint): refuted in Lean "
-            "(c18_full_refuted, witness: two self loops vs a 2-cycle) and confirmed on the real code each run. Known finding: int64 properties beyond "
-            "2^53 are rounded by Load (float64 decoding). Trusted: codecs, encoding/json, SHA-256, the fake database.",
+            "(c18_full_refuted, witness: two self loops vs a 2-cycle) and confirmed on the real code each run. Fixed finding: int64 properties beyond "
+            "2^53 were rounded by Load (float64 decoding); Load now decodes with UseNumber (int_round_trip_fixed). Trusted: codecs, encoding/json, SHA-256, the fake database.",
 }
